@@ -34,12 +34,17 @@ type Datagram05 struct {
 type C05StreamCase struct {
 	Datagrams []Datagram05 `json:"datagrams"`
 	E2EStream bool         `json:"c05_stream_e2e"`
+	// V6: an IPv6 allocation (IPv6 relay, IPv6 peers) on a server whose InboundMTU admits the largest
+	// datagrams: lengths up to 65507 can then be relayed whole - or must be refused, never mangled
+	V6 bool `json:"v6,omitempty"`
 }
 
 type c05sResult struct {
 	kind, msg   string
 	delivered   int
 	viaChannels int
+	refused     int
+	dropped     int
 }
 
 func payload05(d *Datagram05) []byte {
@@ -94,14 +99,18 @@ func runC05StreamInner(c *C05StreamCase) (res c05sResult) { //nolint:cyclop
 	if err != nil {
 		return c05sResult{kind: "harness", msg: err.Error()}
 	}
+	relayIP, relayListen, family, mtu := net.IPv4(10, 9, 0, 1), "10.9.0.1", turn.RequestedAddressFamilyIPv4, 0
+	if c.V6 {
+		relayIP, relayListen, family, mtu = net.ParseIP("fd00:9::1"), "fd00:9::1", turn.RequestedAddressFamilyIPv6, 70000
+	}
 	srv, err := turn.NewServer(turn.ServerConfig{
-		Realm: "sim.realm", LoggerFactory: logger,
+		Realm: "sim.realm", LoggerFactory: logger, InboundMTU: mtu,
 		AuthHandler: func(ra *turn.RequestAttributes) (string, []byte, bool) {
 			return "alice", turn.GenerateAuthKey("alice", ra.Realm, "pw"), ra.Username == "alice"
 		},
 		ListenerConfigs: []turn.ListenerConfig{{
 			Listener:              lis,
-			RelayAddressGenerator: &turn.RelayAddressGeneratorStatic{RelayAddress: net.IPv4(10, 9, 0, 1), Address: "10.9.0.1", Net: tn},
+			RelayAddressGenerator: &turn.RelayAddressGeneratorStatic{RelayAddress: relayIP, Address: relayListen, Net: tn},
 		}},
 	})
 	if err != nil {
@@ -114,6 +123,7 @@ func runC05StreamInner(c *C05StreamCase) (res c05sResult) { //nolint:cyclop
 	cl, err := turn.NewClient(&turn.ClientConfig{
 		STUNServerAddr: "10.0.0.1:3478", TURNServerAddr: "10.0.0.1:3478", Conn: turn.NewSTUNConn(conn), Net: tn,
 		Username: "alice", Password: "pw", Realm: "sim.realm", LoggerFactory: logger, RTO: 100 * time.Millisecond,
+		RequestedAddressFamily: family,
 	})
 	if err != nil {
 		return c05sResult{kind: "harness", msg: err.Error()}
@@ -137,8 +147,12 @@ func runC05StreamInner(c *C05StreamCase) (res c05sResult) { //nolint:cyclop
 	relayAddr := relay.LocalAddr().(*net.UDPAddr) //nolint:forcetypeassert
 	var peers, others []*sim.UDPSock
 	for i := 0; i < 3; i++ {
-		p, _ := n.BindUDP("udp4", net.IPv4(10, 2, 0, byte(i+1)), 7000)
-		o, _ := n.BindUDP("udp4", net.IPv4(10, 2, 0, byte(i+1)), 7001)
+		pnet, pip := "udp4", net.IPv4(10, 2, 0, byte(i+1))
+		if c.V6 {
+			pnet, pip = "udp6", net.ParseIP(fmt.Sprintf("fd00:2::%d", i+1))
+		}
+		p, _ := n.BindUDP(pnet, pip, 7000)
+		o, _ := n.BindUDP(pnet, pip, 7001)
 		peers, others = append(peers, p), append(others, o)
 	}
 	type rx struct {
@@ -175,12 +189,32 @@ func runC05StreamInner(c *C05StreamCase) (res c05sResult) { //nolint:cyclop
 		time.Sleep(time.Duration(d.Pause)*time.Millisecond + 700*time.Microsecond)
 		if d.ToPeer || !written[pi] {
 			// (the first contact with a peer is a write: it installs the permission and starts the binding)
+			// a datagram too large to be relayed whole may be refused or dropped - never altered, never
+			// delivered to somebody else, and the session goes on
+			huge := d.N > 1500
 			if _, werr := relay.WriteTo(payload, pa); werr != nil {
+				if huge {
+					res.refused++
+
+					continue
+				}
+
 				return fail("relayed-write-failed", "%s: WriteTo failed: %v", ctx, werr)
 			}
 			synctest.Wait()
+			for j, other := range peers {
+				if j != pi {
+					if stray, _, got := other.TryRead(); got {
+						return fail("client-to-peer-misdelivered", "%s: peer %d, which was not written to, received %d bytes (%x...)", ctx, j, len(stray), stray[:min(len(stray), 12)])
+					}
+				}
+			}
 			data, from, ok := peers[pi].TryRead()
 			switch {
+			case !ok && huge:
+				res.dropped++
+
+				continue
 			case !ok:
 				return fail("client-to-peer-lost", "%s: nothing reached the peer", ctx)
 			case !bytes.Equal(data, payload):
@@ -251,6 +285,18 @@ func genC05Stream(rt *rapid.T) *C05StreamCase {
 		d.Pause = rapid.SampledFrom([]int{0, 0, 0, 50, 1000}).Draw(rt, "pause")
 		c.Datagrams = append(c.Datagrams, d)
 	}
+	if rapid.IntRange(0, 2).Draw(rt, "v6") == 0 {
+		// an IPv6 allocation and, here and there, a datagram near the largest size
+		c.V6 = true
+		for i, k := 0, rapid.IntRange(1, 3).Draw(rt, "nbig"); i < k; i++ {
+			at := rapid.IntRange(1, len(c.Datagrams)).Draw(rt, "bigAt")
+			big := Datagram05{Peer: rapid.IntRange(0, 2).Draw(rt, "bigPeer"), Seed: rapid.Uint64Range(1, 1<<30).Draw(rt, "bigSeed"), ToPeer: true,
+				N:     rapid.OneOf(rapid.IntRange(65480, 65507), rapid.SampledFrom([]int{30000, 65000, 65496, 65497, 65500, 65504, 65507})).Draw(rt, "bigLen"),
+				Frame: rapid.SampledFrom([]string{"", "chandata"}).Draw(rt, "bigFrame")}
+			after := Datagram05{Peer: big.Peer, Seed: big.Seed + 1, ToPeer: true, N: rapid.IntRange(0, 40).Draw(rt, "afterLen")}
+			c.Datagrams = append(c.Datagrams[:at], append([]Datagram05{big, after}, c.Datagrams[at:]...)...)
+		}
+	}
 
 	return c
 }
@@ -263,6 +309,11 @@ func TestC05ClientStream(t *testing.T) {
 		res := runC05Stream(t, c)
 		r.LabelN("e2e-stream:datagrams-delivered", res.delivered)
 		r.LabelN("e2e-stream:channel-bindings", res.viaChannels)
+		r.LabelN("e2e-stream:oversize-refused-by-the-client", res.refused)
+		r.LabelN("e2e-stream:oversize-dropped-on-the-way", res.dropped)
+		if c.V6 {
+			r.Label("e2e-stream:ipv6-allocation")
+		}
 		odd := false
 		for _, d := range c.Datagrams {
 			odd = odd || d.N%4 != 0
